@@ -66,8 +66,11 @@ class EngineC13(EngineC14):
             if kind == "stmt":
                 log.add("stmt", "ok")
                 continue
-            name = op["name"] if kind == "insn" else None
-            parts = op["parts"] if kind == "insn" else [op["code"]]
+            name = op["name"] if kind in ("insn", "loaded_insn") else None
+            if kind == "loaded_insn":
+                parts = o.get("loaded_parts") or []
+            else:
+                parts = op["parts"] if kind == "insn" else [op["code"]]
             if len(o["parts"]) != len(parts):
                 V.append(Violation("C13", "text-model", "part-count", "", {"got": len(o["parts"]), "want": len(parts)}, step))
                 continue
